@@ -504,7 +504,9 @@ class PolygonTensor(PolytopeTensor):
             try:
                 result = self._plane.meet(other._line)
             except LinearDependenceError as e:
-                if isinstance(other, SegmentTensor):
+                if np.all(e.dependent_values):
+                    return []
+                if isinstance(other, SegmentCollection):
                     other = cast(SegmentTensor, other[~e.dependent_values])
                 result = cast(PlaneTensor, self._plane[~e.dependent_values]).meet(other._line)
                 return list(
@@ -519,6 +521,8 @@ class PolygonTensor(PolytopeTensor):
         try:
             result = self._plane.meet(other)
         except LinearDependenceError as e:
+            if np.all(e.dependent_values):
+                return []
             if other.free_indices > 0:
                 other = other[~e.dependent_values]
             result = cast(PlaneTensor, self._plane[~e.dependent_values]).meet(other)
